@@ -4569,6 +4569,10 @@ class Qube(object):
 
         # Special case: broadcast to ()
         if shape == ():
+            if self._size_ != 1:
+                raise ValueError('cannot broadcast %s of shape %s to shape ()'
+                                 % (type(self).__name__, self._shape_))
+
             if self._rank_ == 0:
                 if isinstance(self._values_, np.ndarray):
                     new_values = self._values_.ravel()[0]
